@@ -3,22 +3,33 @@
    Tensor/FourCosets.v proves the four-coset statement relative to [normalizer_spanned] (every operator commuting
    with all stabilizer generators is a product of generators and logicals).  Here that proviso is DISCHARGED from
    the centralizer lemmas of the lattice files, so the statements below carry no hypothesis beyond the size
-   constraints of the constructors:
+   constraints of the constructors.
 
-   Generic (any code with one logical pair and a centralizer lemma):
-   * [normalizer_spanned_of_centralizer]   the centralizer lemma gives [normalizer_spanned];
-   * [normalizer_coset_iff]                a normalizer element e lies in the coset lx^a lz^b S  iff
-                                           (a, b) = (bsp lz e, bsp lx e): exactly one of the four cosets;
-   * [four_cosets_of_centralizer]          the conclusion of [four_cosets_statement];
-   * [four_cosets_total_prob]              any duplicate-free list of the operators with the syndrome of f has
-                                           total probability  P(f S) + P(f X S) + P(f X Z S) + P(f Z S)
-                                           (Tensor/Coset.coset_prob), in every commutative ring;
-   * [four_cosets_total_prob_enum]         ... in particular the explicit enumeration [syndrome_class].
-   Instances, all sizes: planar code (rows, cols >= 2) and rotated planar code (rows, cols >= 3):
-     [planar_normalizer_spanned], [planar_normalizer_coset], [planar_four_cosets], [planar_four_cosets_inequivalent],
-     [planar_four_cosets_prob]   and   [rotplanar_*] likewise.
-   Sixteen cosets (k = 2), generic in the number k of logical pairs ([KCosets]): toric code (rows, cols >= 2) and
-   rotated toric code (even rows, cols >= 2): [toric_sixteen_cosets], [rottoric_sixteen_cosets], ... *)
+   Generic, one logical qubit (sections FromCentralizer, FourCosetsProb, K1Family):
+   * [normalizer_spanned_of_centralizer]  a centralizer lemma gives [normalizer_spanned];
+   * [normalizer_coset_iff(_r)]           a normalizer element e lies in the coset X^a Z^b S  iff
+                                          (a, b) = (e . lz, e . lx): exactly one of the four cosets S, X S, X Z S, Z S;
+   * [four_cosets_of_centralizer], [four_cosets_label], [four_cosets_unique_candidate]
+                                          the conclusion of [FourCosets.four_cosets_statement], with the label of the
+                                          coset, and in the exists! form of Props/C10.c10_four_cosets_statement;
+   * [partition_total]                    pairwise inequivalent representatives: the probability of the union of their
+                                          cosets is the sum of the coset probabilities (Tensor/Coset.coset_prob), any ring;
+   * [four_cosets_total_prob]             any duplicate-free list of the operators with the syndrome of f has total
+                                          probability P(f S) + P(f X S) + P(f X Z S) + P(f Z S); [syndrome_class] is
+                                          such a list.
+   Instances, every size (planar: rows, cols >= 2; rotated planar: rows, cols >= 3):
+     [planar_normalizer_spanned] [planar_normalizer_coset] [planar_four_cosets] (premises AND conclusion of
+     [four_cosets_statement], see [four_cosets_statement_unfold]) [planar_four_cosets_label] [planar_four_cosets_c10]
+     [planar_four_cosets_prob], and [rotplanar_*] likewise.
+   Generic, k logical qubits (section KCosets): [knormalizer_coset_iff] [kcosets_label] [kcosets_exactly_one]
+     [kcosets_inequivalent] [kcosets_total_prob] (4^k cosets).
+   Sixteen cosets, every size (toric: rows, cols >= 2; rotated toric: even rows, cols >= 2):
+     [toric_normalizer_coset] [toric_sixteen_cosets] [toric_sixteen_prob], [rottoric_*] likewise.  The toric generator
+     lists are dependent (two redundant generators); coset probabilities are taken over the n - 2 independent generators
+     [toric_reduced_stabs] / [rottoric_reduced_stabs], which generate the same group.
+
+   Still open (unchanged, in Tensor/FourCosets.v): [four_cosets_statement] for EVERY code with n - 1 independent
+   commuting generators, i.e. the rank-nullity step [normalizer_counting_statement]. *)
 From Coq Require Import List Arith Lia Bool ZArith Permutation.
 From QV Require Import Core.Bits Core.Pauli Core.Symp Core.Code Core.Span Core.Rank Core.Dist Core.Enum
   Lattice.Planar Lattice.PlanarAll Lattice.PlanarRankAll Lattice.PlanarDistAll
